@@ -747,6 +747,13 @@ loop:
 
 					sc.writeReset(fr.Stream(), RefusedStreamError)
 
+					// The DATA that follows a refused HEADERS is already on its
+					// way when the peer learns of the refusal, and it was sent
+					// against the connection window.
+					if fr.Type() == FrameData {
+						sc.consumeConnRecvWindow(fr.Len())
+					}
+
 					continue
 				}
 
@@ -904,6 +911,17 @@ func (sc *serverConn) consumeRecvWindow(strm *Stream, fr *FrameHeader, n int) {
 	// just finished with.
 	if !fr.Flags().Has(FlagEndStream) {
 		sc.writeWindowUpdate(strm.ID(), n)
+	}
+
+	sc.consumeConnRecvWindow(n)
+}
+
+// consumeConnRecvWindow is the connection-level half of consumeRecvWindow, for
+// DATA that belongs to no stream we are serving: it counted against the
+// connection window when the peer sent it, so it has to be handed back too.
+func (sc *serverConn) consumeConnRecvWindow(n int) {
+	if n <= 0 {
+		return
 	}
 
 	sc.currentWindow -= int32(n)
